@@ -234,6 +234,9 @@ pub fn run_scenario(s: &Scn, tag: &str) -> Result<ScnOutcome, Fail> {
             // nothing in service, so listen() returns right after that look: a timeout error more than 30 ms
             // after the flag was set means a set flag was passed over (the time is taken in the listen thread)
             if let Some(tf) = t_flag_done {
+                if std::env::var_os("VL_TIMING").is_some() {
+                    eprintln!("timeout with flag: t_ret - t_flag = {} ms, t_flag - t_listen = {} ms", ms(t_ret, tf), ms(tf, t_listen));
+                }
                 if t_ret > tf + Duration::from_millis(30) {
                     timeout_despite_flag = Some(format!("listen() returned a timeout error {} ms after the stop flag had been set (idle_timeout {} s)", ms(t_ret, tf), s.idle));
                 }
@@ -450,10 +453,16 @@ fn fixed_family() -> Vec<Scn> {
     v.push(Scn { idle: 1, flag_ms: None, workers: (1, 2), conns: vec![c(0, 300, 1, None), c(50, 350, 1, None), c(150, 2700, 1, None), c(1700, 2000, 1, None)], must_serve: vec![], flag_never_set: true });
     // the flag is raised inside the last poll interval before the idle deadline of an idle server: it is set
     // when the loop next looks, so listen() returns Ok, not a timeout error
-    for (idle, flag) in [(1u64, 930u64), (1, 950), (1, 965), (2, 1950)] {
-        v.push(Scn { idle, flag_ms: Some(flag), workers: (1, 4), conns: vec![], must_serve: vec![], flag_never_set: false });
-    }
     v
+}
+
+/// The flag is raised inside the last poll interval before the idle deadline of an idle server. These run one
+/// after the other once the parallel batch is over: the plan only holds when the flag thread wakes up on time.
+fn flag_before_deadline_family() -> Vec<Scn> {
+    [(1u64, 930u64), (1, 950), (1, 965), (2, 1950)]
+        .iter()
+        .map(|(idle, flag)| Scn { idle: *idle, flag_ms: Some(*flag), workers: (1, 4), conns: vec![], must_serve: vec![], flag_never_set: false })
+        .collect()
 }
 
 fn scn_strategy() -> impl Strategy<Value = Scn> {
@@ -586,6 +595,21 @@ pub fn run(args: &Args) -> ! {
             Ok(Some(_)) => late_once += 1,
             Err(f) => {
                 ctx.violation(&f.key, &f.what, "c15-scenario", scn_json(s));
+            }
+        }
+    }
+    if !ctx.failed() {
+        for s in flag_before_deadline_family() {
+            ctx.case(Some(hash64(&scn_json(&s).to_string())));
+            ctx.class("scenario:flag-inside-the-last-poll-interval-before-the-idle-deadline");
+            ctx.sample(|| scn_json(&s));
+            match judge(&s, "c15serial") {
+                Ok(None) => {}
+                Ok(Some(_)) => late_once += 1,
+                Err(f) => {
+                    ctx.violation(&f.key, &f.what, "c15-scenario", scn_json(&s));
+                    break;
+                }
             }
         }
     }
